@@ -33,18 +33,20 @@ Print Assumptions print_retokenises_partial.
      leaf_tokens_real: every written token that is not a punctuator / keyword of the fragment with its canonical bytes
        (identifiers, numeric and string literals, property names) is a token of the lexer — lexed alone it is that token
        ([relexes]), of class identifier / numeric / string, with no truncated UTF-8 sequence at its end;
-     c06_separated (a computable check of the written item list, byte by byte): every written token is followed by a
-       byte that cannot extend it in the sense of C06's [stop_for].
-   PARTIAL, MISSING — exactly the outputs with c06_separated t = false or leaf_tokens_real false:
-     (1) followers that are safe but for which C06's stop_for has no case (the MISSING list of jslex_token_sequences_partial):
-         a prefix operator directly followed by a digit, '.', '+', '-' or '!' (`-1`, `-.5`, `!-a`, `!!a`, `-++a`; `- -a`,
-         `!~a`, `-a`, `-(1)`, `!'s'` are inside), a binary / octal / hex / BigInt literal directly before '.' (`0x1F.a`;
-         decimal literals get parentheses), a token that starts with a non-ASCII byte directly after a space (`a + é`);
+     c06_separated (a computable check of the written item list, byte by byte): every written token is followed by
+       bytes that cannot extend it — C06's exact follower condition [stops] (no longer punctuator of the token table
+       begins there, no comment opener, no '.' after a plain decimal integer, no identifier character after a word).
+       With the exact condition the printer's own spacing passes in every instance tried (`-1`, `-.5`, `!-a`, `!!a`,
+       `+++a`, `a++++`, `0x1F.a`, `a + é`: separated_examples_exact); the check refuses leaves that are no tokens
+       (not_separated_examples).  That it holds for EVERY tree of the fragment is not proved here; the jsprint
+       correspondence run evaluates it on the tree of every case (JsPrint/Harness.v: the implementation side expects 1).
+   PARTIAL, MISSING:
+     (1) the proof that c06_separated holds for every accepted tree (it is a hypothesis, decidable per tree, and checked on
+         every case of the correspondence run);
      (2) a property name that is a reserved word (`a.if`: the printer's token is an IdentifierToken, the lexer returns
-         the keyword type; the parser accepts both) and leaf tokens the lexer does not deliver through Next (a
-         RegExpToken literal).
-   LexBack.v has an instance (print_lex_parse_example) and members of both sides of the check (separated_examples,
-   not_separated_examples). *)
+         the keyword type — leaf_tokens_real fails; the parser accepts both), and leaf tokens the lexer does not deliver
+         through Next (a RegExpToken literal needs RegExp()).
+   LexBack.v has an instance (print_lex_parse_example). *)
 Theorem print_lex_parse_partial :
   forall (ids idc zs : Z -> bool) inf ts t,
     parse inf prec_OpExpr ts = Ok (t, []) -> leaf_tokens_real ids idc zs t -> c06_separated t = true ->
